@@ -8,7 +8,8 @@ import numpy as np
 
 from props import c01 as base
 
-RULE = ('k-medoids / k-hybrid runs (function and estimator forms, _kmedoids_pam_update chains) on the C01 '
+RULE = ('(+ k-hybrid in MPI mode on 2-3 thread-simulated ranks owning unequal numbers of frames: global cost '
+        'recomputed from all frames, oracle only) k-medoids / k-hybrid runs (function and estimator forms, _kmedoids_pam_update chains) on the C01 '
         'generators incl. the large-n family (n 257..600 and >65536, centers at indices >= 256/65536, k>255; oracle only) (table metric incl. asymmetric / tie-heavy tables, euclidean/manhattan on small-integer '
         'grids, n 2..40, k 1..n, 1..6 sweeps, explicit proposals incl. foreign clusters / current centers / '
         'other centers, recorded random proposals, int seeds, cold and warm starts from independently built '
@@ -145,6 +146,99 @@ def extra(ctx, rec, model):
                 return
 
 
+# --------------------------------------------------------------------------- k-hybrid on MPI-striped data
+
+def _run_ranks(w, fn, timeout=20.0):
+    """fn(rank) on w thread-simulated ranks of the mpi4py stand-in; returns (results, errors, hung)"""
+    import threading
+    import time
+    from mpi4py import MPI
+    W = MPI.WORLD
+    W.size, W.slots, W.jitter, W.aborted = w, {}, None, False
+    results, errors = [None] * w, [None] * w
+
+    def worker(r):
+        MPI._tls.rank = r
+        try:
+            results[r] = fn(r)
+        except BaseException as e:  # noqa
+            errors[r] = e
+            with W.cv:
+                W.aborted = True
+                W.cv.notify_all()
+    threads = [threading.Thread(target=worker, args=(r,), daemon=True) for r in range(w)]
+    for t in threads:
+        t.start()
+    deadline = time.time() + timeout
+    for t in threads:
+        t.join(max(0.0, deadline - time.time()))
+    hung = any(t.is_alive() for t in threads)
+    if hung:
+        with W.cv:
+            W.aborted = True
+            W.cv.notify_all()
+        for t in threads:
+            t.join(5.0)
+    W.size, W.jitter, W.slots, W.aborted = 1, None, {}, False
+    MPI._tls.rank = 0
+    return results, errors, hung
+
+
+def gen_mpi_case(rng):
+    """few frames striped unevenly over 2-3 ranks (rank r owns X[r::W]): the refinement stage of k-hybrid in
+    MPI mode decides on the mean over ALL frames; small pieces make any mis-weighting of the ranks visible"""
+    W = int(rng.integers(2, 4))
+    n = int(rng.integers(W + 1, 7))
+    while n % W == 0:
+        n += 1
+    dim = int(rng.integers(1, 3))
+    pts = base.gen_points(rng, n) if dim > 1 else [[int(x)] for x in rng.choice(np.arange(0, 9), size=n, replace=False)]
+    return {'kind': 'mpi_hybrid', 'X': pts, 'W': W, 'n_clusters': 2 if n < 5 else int(rng.integers(2, 4)),
+            'n_iters': 3, 'seed': int(rng.integers(0, 2 ** 31)), 'metric': 'manhattan',
+            'dtype': str(rng.choice(['int64', 'int32', 'float64']))}
+
+
+def check_mpi_case(ctx, case):
+    from enspara.cluster import hybrid
+    X = np.array(case['X']).astype(case['dtype'])
+    Xf = np.array(case['X'], dtype=float)
+    W, k, seed = case['W'], case['n_clusters'], case['seed']
+    n = len(X)
+    ctx.case(case, nontrivial=True, tags=['mpi_hybrid', 'mpi-uneven-striping', 'ranks=%d' % W])
+    fail = lambda what: ctx.violation('hybrid(mpi_mode=True) on %d ranks: %s' % (W, what), dict(case))  # noqa: E731
+    prev = None
+    for T in range(0, case['n_iters'] + 1):
+        with base.quiet_logs():
+            res, errs, hung = _run_ranks(W, lambda r: hybrid.hybrid(
+                X[r::W], case['metric'], n_clusters=k, n_iters=T, random_state=seed, mpi_mode=True))
+        if hung:
+            return fail('ranks deadlocked with %d sweeps' % T)
+        e = next((e for e in errs if e is not None), None)
+        if e is not None:
+            return fail('raised %s (%s) with %d sweeps' % (type(e).__name__, str(e)[:120], T))
+        inds = [tuple(int(x) for x in np.atleast_1d(i)) for i in res[0].center_indices]
+        for o in res[1:]:
+            if [tuple(int(x) for x in np.atleast_1d(i)) for i in o.center_indices] != inds:
+                return fail('ranks report different centers')
+        if len(inds) != k or len(set(inds)) != k:
+            return fail('%d distinct centers instead of %d' % (len(set(inds)), k))
+        coords = []
+        for (r, i), c in zip(inds, res[0].centers):
+            if not (0 <= r < W and 0 <= i < len(X[r::W])) or not np.array_equal(np.asarray(c), X[r::W][i]):
+                return fail('a center is not the input frame at its (rank, index)')
+            coords.append(Xf[r::W][i])
+        d = np.min(np.stack([np.abs(Xf - c).sum(1) for c in coords]), 0)
+        for r in range(W):       # each rank's distances are the distances of its frames to the nearest center
+            if not np.array_equal(np.asarray(res[r].distances, dtype=float), d[r::W]):
+                return fail('rank %d: distances are not the distances to the nearest reported center' % r)
+        c = float(np.sum(d * d) / n)
+        if prev is not None and c > prev * (1 + 1e-12):
+            return fail('the mean squared distance over all frames rose from %r to %r in sweep %d' % (prev, c, T))
+        if prev is not None:
+            ctx.tag('mpi-cost-decreased' if c < prev else 'mpi-cost-unchanged')
+        prev = c
+
+
 def gen_case(rng, kind=None, nmax=14):
     kind = kind or str(rng.choice(GEN_KINDS, p=[.3, .1, .25, .25, .1]))
     c = base.gen_case(rng, kind=kind, nmax=nmax)
@@ -176,14 +270,22 @@ def run(ctx):
         for c in base.tiny_tables(ctx, 4, limit=ctx.n(40, 100000)):
             cases.append(c)
         base.check_cases(ctx, cases, area='C09', extra=extra)
+        # the refinement stage of k-hybrid on MPI-striped data (thread-simulated ranks), uneven pieces
+        for _ in range(ctx.n(200, 2500)):
+            c = gen_mpi_case(rng)
+            base._safely(ctx, 'running mpi_hybrid', c, lambda c=c: check_mpi_case(ctx, c))
         need = ['pam-branch-dn', 'pam-branch-other', 'pam-branch-this', 'pam-accept', 'pam-reject',
                 'cost-decreased', 'cost-unchanged', 'hybrid<=kcenters', 'warm-start-cost<=', 'model-agrees', 'large-n', 'center-index>=256', 'k>255', 'n>65536', 'family=containers', 'family=scaled', 'family=exact-ties',
                 'family=degenerate', 'family=reuse', 'family=config', 'pam-exact-tie-other-candidate', 'pam-exact-tie-with-label-swap',
                 'pam-accept-after-exact-tie', 'same-objects-reused', 'fed-back-rounds-agree', 'proposals=current-medoids',
-                'sweep-by-sweep-agrees', 'reproducible']
+                'sweep-by-sweep-agrees', 'reproducible', 'mpi-uneven-striping', 'mpi-cost-decreased']
         ctx.note('under_covered', [t for t in need if not ctx.tags.get(t)])
 
 
 def replay(ctx, data):
+    if data.get('case', data).get('kind') == 'mpi_hybrid':
+        with base.one_thread():
+            check_mpi_case(ctx, dict(data.get('case', data)))
+        return
     with base.one_thread():
         base.check_cases(ctx, [dict(data.get('case', data))], area='C09', extra=extra)
